@@ -38,11 +38,13 @@ claim('C11', 'proof', 'Coq theorems (printer injectivity by unique decomposition
       'Tie: == both ways, !=, hash, len({f,g}), dict lookup, str character by character vs the model printer, clone tree/sharing/mutation-through-clone (objects built from formula objects and from raw str/bool operands), '
       'formulas edited after hashing, on pairs and triples from the depth<=2 enumeration.',
       'The heap model of formula objects is a transcription (constructors = fresh cells), tied to the tree model by theorem; node sharing of the Python objects is additionally monitored at run time (id walk + mutation through the clone).')
-claim('C14', 'proof', 'Coq theorems (constructor / clone / substructure specifications over the proved graph-construction lemmas; axiom-free) + differential test incl. aliasing monitors',
+claim('C14', 'proof', 'Coq theorems (constructor / clone / substructure specifications over the proved graph-construction lemmas; no shared label set on a heap model; axiom-free) + differential test incl. aliasing monitors',
       'C14_ctor/_shape/_nonstate/_state/_clone/_substructure/_constructed_wf: Kripke(S,S0,R,L) succeeds exactly when every state has a successor (else RuntimeError); states, transitions, initial states, label sets as documented; '
       'clone and get_substructure (after fix F2) preserve labels and give exactly the induced transitions, RuntimeError exactly when the induced relation is not total. '
-      'Tie: every argument combination over <= 2 states, all 3-state (S,R) with sampled S0/L, random <= 5 states, every subset V; container-type and state-type variation.',
-      'Label-set aliasing (id disjointness, mutation through every handed-out object) is monitored at run time, not modelled.')
+      'On the heap model (label sets are cells; Model/HeapKripkeOps.v): C14_ctor_fresh_label_sets, C14_clone_no_shared_label_set, C14_substructure_no_shared_label_set (fresh cells; a write on either side never reaches the other), '
+      'C14_substructure_raises_cleanly, C14_sharing_clone_refuted. '
+      'Tie: every argument combination over <= 2 states, all 3-state (S,R) with sampled S0/L, random <= 5 states, every subset V; container-type and state-type variation (incl. one-shot iterators, identity-hashed state objects).',
+      'The heap model is a transcription (constructor = one new cell per state), tied to the pure model by theorem; label-set aliasing of the Python objects (id disjointness, mutation through every handed-out object) is additionally monitored at run time.')
 claim('C04', 'proof', 'Coq corollaries of the exactness theorems C01-C03 (22 laws) + implementation-side evaluation of every law with per-answer comparison to the model',
       'C04_three_checkers_agree, _ctls_ctl_agree, _ctls_ltl_agree, _ctl_ltl_agree; not/and/or/implies = complement/intersection/union for CTL and CTL-star; A g = not E not g; '
       'AX/EX, AF/EG, AG/EF dualities; the six fixpoint expansion laws. Tie: 138 named laws evaluated on the implementation (both sides through the real modelcheck, as objects, cast objects, printed text, hand-written text) '
